@@ -15,7 +15,7 @@ for f in sys.argv[2:]:
             valid[m.group(1)] = {"existing_suite_with_patch": m.group(2), "demo_with_patch": m.group(3), "demo_without_patch": m.group(4)}
 notes = json.load(open('/verif/tools/seed_notes.json')) if os.path.exists('/verif/tools/seed_notes.json') else {}
 rows = []
-for d in sorted(glob.glob('/tmp/seed-*/*/') + glob.glob('/tmp/seed2-*/*/') + glob.glob('/tmp/seed3-*/*/')):
+for d in sorted(glob.glob('/tmp/seed-*/*/') + glob.glob('/tmp/seed2-*/*/') + glob.glob('/tmp/seed3-*/*/') + glob.glob('/tmp/seed4-*/*/')):
     sid = os.path.basename(d.rstrip('/'))
     if not os.path.exists(d + 'patch.diff'):
         continue
@@ -25,7 +25,7 @@ for d in sorted(glob.glob('/tmp/seed-*/*/') + glob.glob('/tmp/seed2-*/*/') + glo
     shutil.copy(d + 'demo.rs', out + '/demo.rs')
     meta = json.load(open(d + 'meta.json'))
     meta['id'] = sid
-    meta['round'] = 3 if '/seed3-' in d else (2 if '/seed2-' in d else 1)
+    meta['round'] = 4 if '/seed4-' in d else 3 if '/seed3-' in d else (2 if '/seed2-' in d else 1)
     meta['agent_verified'] = meta.pop('verified', '')
     meta['confirmed'] = valid.get(sid, {})
     meta['what_i_ran'] = ("tools/validate_seed.sh (scratch worktree: git apply patch.diff; cargo test --offline => 73 pass; "
